@@ -184,7 +184,17 @@ def histories(draw, cat):
     stmts, tags = [], set()
     for _ in range(nst):
         kind = catalogs._pick(draw, ['model'] * 7 + ['part'] * 3 + ['free', 'free-dml', 'plain-dml', 'udf']
-                              + (['repeat'] * 4 if stmts else []))
+                              + (['repeat'] * 4 if stmts else [])
+                              + (['cte-name'] * 8 if any('WITH w0 AS' in x for x in stmts) else []))
+        if kind == 'cte-name':
+            # a table that goes by the name of a CTE of an earlier statement (w0 / w1 of the cte, cte2 wraps)
+            t = catalogs._pick(draw, g0.view['tables'][catalogs._pick(draw, ['t2', 't3', 't4'])])
+            stmts.append(catalogs._pick(draw, [
+                'SELECT * FROM w0', 'SELECT * FROM w0 AS w WHERE w.a > 1', f'SELECT * FROM w0 JOIN {t} AS a9 ON w0.a = a9.a',
+                f'SELECT * FROM {t} WHERE a IN (SELECT a FROM w0)', f'SELECT * FROM {t} AS a9 JOIN w1 ON w1.a = a9.a',
+                f'INSERT INTO int1.t9 SELECT * FROM w0 JOIN {t} AS a9 ON w0.a = a9.a']))
+            tags.add('hist:table-named-like-earlier-cte')
+            continue
         if kind == 'repeat':
             stmts.append(catalogs._pick(draw, stmts))
             tags.add('hist:stmt-repeated')
@@ -196,7 +206,7 @@ def histories(draw, cat):
                 sel = g.model_only()
             else:
                 sel, _ = g.select(catalogs._pick(draw, c09_part.PART_SHAPES) if kind == 'part' else None)
-            sql = catalogs.dml_wrap_text(g, sel, catalogs._pick(draw, catalogs.WRAPS))
+            sql = catalogs.dml_wrap_text(g, sel, catalogs._pick(draw, catalogs.WRAPS + ['cte', 'cte2', 'cte']))
             tags |= {t for t in g.tags if t.startswith(('hist:', 'using:pp', 'where:in-sub', 'where:scalar-sub'))}
         elif kind == 'udf':
             sql = draw(catalogs.udf_queries(cat))
